@@ -180,6 +180,7 @@ CHECKS["C03"] = dict(
           dict(name="deep", test="^TestCoversDeep$", quick=dict(n=40000, procs=2, timeout=300), thorough=dict(n=5000000, procs=6, timeout=3000)),
           dict(name="authorize", test="^TestAuthorize$", quick=dict(n=15000, procs=3, timeout=300), thorough=dict(n=4000000, procs=12, timeout=3000)),
           dict(name="concurrent", test="^TestAuthorizeConcurrent$", kind="plain", quick=dict(n=6, procs=1, timeout=300), thorough=dict(n=300, procs=3, timeout=1800)),
+          dict(name="contract-refresh", test="^TestContractRefresh$", kind="plain", quick=dict(n=3, procs=1, timeout=300), thorough=dict(n=48, procs=2, timeout=1800)),
           dict(name="entry-points", test="^TestEntryPoints$", kind="plain", quick=dict(n=1, procs=1, timeout=300), thorough=dict(n=1, procs=1, timeout=600))],
 )
 
